@@ -204,6 +204,11 @@ func runC03(c *eng.Ctx) {
 	c.Rule("PASS", cjT+".doMerge{no value dropped}", func() {
 		f := c.Fn(cjT + ".doMerge")
 		val := c.One(f, invokeOn("", "Value"), "it.Value()")
+		if g := val.Instr.Parent(); g != f && g.Parent() == nil {
+			// the grouping loop, the trailing merge and the close of the output moved into a helper that doMerge ends with
+			// (return c.mergeInputs(merger, it)): the rule is about that body - its returns are doMerge's returns
+			f = g
+		}
 		nxt := c.One(f, invokeOn("", "HasNext"), "it.HasNext()")
 		apps := p.Sites(f, func(p *eng.Prog, in ssa.Instruction) bool {
 			cl, ok := in.(*ssa.Call)
